@@ -292,6 +292,11 @@ N("carried-over test written with `is not None` and else", ["C12", "C13", "C09",
   [(PS, "            if request.alarm is None:\n                self._retryPublish(request, dup=True)", "            if request.alarm is not None:\n                pass\n            else:\n                self._retryPublish(request, dup=True)")])
 B("connectionLost without timer.stop()", ["C13"],
   [(BASE, "            self._pingReq.timer.stop()\n", "")], {"C13": ["R-LOSS"]})
+B("disconnect cancels the ping deadline and keeps the handle", ["C11", "C04", "C13", "C14"],
+  [(BASE, "        self.transport.write(request.encode())\n        self.transport.loseConnection()\n", "        self.transport.write(request.encode())\n        if self._pingReq.alarm:\n            self._pingReq.alarm.cancel()\n        self.transport.loseConnection()\n")],
+  {"C11": ["X-REACH"], "C04": ["K3"], "C13": ["H-FIRED"], "C14": ["M-LOSS-IDLE"]})
+N("disconnect cancels and clears the ping deadline", ["C11", "C04", "C13", "C14"],
+  [(BASE, "        self.transport.write(request.encode())\n        self.transport.loseConnection()\n", "        self.transport.write(request.encode())\n        if self._pingReq.alarm:\n            self._pingReq.alarm.cancel()\n            self._pingReq.alarm = None\n        self.transport.loseConnection()\n")])
 B("doPingError keeps its fired handle (D13 re-introduced)", ["C13"],
   [(BASE, "            self._pingReq.alarm = None\n            self.transport.abortConnection()", "            self.transport.abortConnection()")], {"C13": ["H-FIRED"]})
 B("keepalive loop started unconditionally", ["C13"],
@@ -375,7 +380,7 @@ N("drain loop over items of a copy", ["C11"],
 
 # ---------------------------------------------------------------- C12
 B("resume/purge branches swapped", ["C12"],
-  [(PS, "        if self._cleanStart:\n            self._purgeSession(MQTTSessionCleared())\n        else:\n            self._syncSession()", "        if not self._cleanStart:\n            self._purgeSession(MQTTSessionCleared())\n        else:\n            self._syncSession()")],
+  [(PS, "        if self._cleanStart:\n            self._purgeSession(MQTTSessionCleared())\n", "        if not self._cleanStart:\n            self._purgeSession(MQTTSessionCleared())\n")],
   {"C12": ["Y-RESUME", "Y-PURGE"]})
 B("resume over sorted(reverse=True)", ["C12"],
   [(PS, "        for _, request in self.factory.windowPublish[self.addr].items():\n            # only what an earlier connection left behind",
@@ -384,7 +389,7 @@ B("loss path fires regardless of session", ["C12"],
   [(PS, "        # Then, invoke errbacks anyway if we do not persist state\n        if self._cleanStart:", "        # Then, invoke errbacks anyway if we do not persist state\n        if True:")], {"C12": ["Y-KEEP"]})
 B("resume skips the release window", ["C12"],
   [(PS, "        for _, reply in self.factory.windowPubRelease[self.addr].items():\n            self._retryRelease(reply, dup=True)\n", "")], {"C12": ["Y-RESUME"]})
-B("purge with the wrong exception", ["C12"], [(PS, "            self._purgeSession(MQTTSessionCleared())\n        else:", "            self._purgeSession(ValueError())\n        else:")], {"C12": ["Y-PURGE"]})
+B("purge with the wrong exception", ["C12"], [(PS, "            self._purgeSession(MQTTSessionCleared())\n            # the purge", "            self._purgeSession(ValueError())\n            # the purge")], {"C12": ["Y-PURGE"]})
 B("publish refused while connecting", ["C12"],
   [(PS, "    # The standard allows publishing data without waiting for CONNACK\n    def publish(self, request):\n        return self.protocol.doPublish(request)\n\n# ---------------------------------\n# MQTT Client Connected State Class", "# ---------------------------------\n# MQTT Client Connected State Class"),
    (PUB, "    # The standard allows publishing data without waiting for CONNACK\n    def publish(self, request):\n        return self.protocol.doPublish(request)\n", "")], {"C12": ["Y-EARLY"]})
@@ -425,6 +430,9 @@ B("a _handleCONNECT method added", ["C16"],
 B("PUBCOMP.decode assigns msgId early (tolerated sibling becomes harmful)", ["C16"],
   [(PDU, "        packet_remaining = packet[lenLen+1:]\n        self.msgId   = decode16Int(packet_remaining)\n\n# ------------------------------------------------------------------------------\n\n__all__",
     "        packet_remaining = packet[lenLen+1:]\n        self.msgId   = packet[1]\n        self.msgId   = decode16Int(packet_remaining)\n\n# ------------------------------------------------------------------------------\n\n__all__")], {"C16": ["E1"]})
+B("decodeString ignoring invalid UTF-8", ["C16"], [(PDU, "    return (encoded[2:2+length].decode('utf-8'), encoded[2+length:])", "    return (encoded[2:2+length].decode('utf-8', 'ignore'), encoded[2+length:])")], {"C16": ["E7"]})
+N("decodeString with errors='strict' spelled out", ["C16", "C01", "C02", "C06"], [(PDU, "    return (encoded[2:2+length].decode('utf-8'), encoded[2+length:])", "    return (encoded[2:2+length].decode('utf-8', errors='strict'), encoded[2+length:])")])
+N("decodeString ignoring invalid UTF-8 leaves the round trip alone", ["C01", "C02"], [(PDU, "    return (encoded[2:2+length].decode('utf-8'), encoded[2+length:])", "    return (encoded[2:2+length].decode('utf-8', 'ignore'), encoded[2+length:])")])
 B("unguarded PINGRESP cancel (D2 re-introduced)", ["C16"],
   [(BASE, "        if self._pingReq.alarm:\n            self._pingReq.alarm.cancel()\n            self._pingReq.alarm = None\n\n\n    # ---------------------------\n    # Protocol API for subclasses",
     "        self._pingReq.alarm.cancel()\n        self._pingReq.alarm = None\n\n\n    # ---------------------------\n    # Protocol API for subclasses")], {"C16": ["E3"]})
@@ -504,6 +512,8 @@ B("CONNECT.decode keepalive read before the flags are skipped", ["C01"], [(PDU, 
 B("CONNACK.decode session bit 0x02", ["C01"], [(PDU, "        self.session = (packet_remaining[0] & 0x01) == 0x01 ", "        self.session = (packet_remaining[0] & 0x02) == 0x02 ")], {"C01": ["L4", "L3"]})
 B("decoder header skip with mask 0x40", ["C01"], [(PDU, "        self.encoded = packet\n        lenLen = 1\n        while packet[lenLen] & 0x80:\n            lenLen += 1\n        packet_remaining = packet[lenLen+1:]\n        self.msgId   = decode16Int(packet_remaining)\n\n# ------------------------------------------------------------------------------\n\n__all__",
                                                 "        self.encoded = packet\n        lenLen = 1\n        while packet[lenLen] & 0x40:\n            lenLen += 1\n        packet_remaining = packet[lenLen+1:]\n        self.msgId   = decode16Int(packet_remaining)\n\n# ------------------------------------------------------------------------------\n\n__all__")], {"C01": ["L1"]})
+N("SUBSCRIBE decode loop written with > 0", ["C01"], [(PDU, "        packet_remaining = packet_remaining[2:]\n        while len(packet_remaining):\n            topic, packet_remaining = decodeString(packet_remaining)\n            qos =", "        packet_remaining = packet_remaining[2:]\n        while len(packet_remaining) > 0:\n            topic, packet_remaining = decodeString(packet_remaining)\n            qos =")])
+B("SUBSCRIBE decode loop stops with a short entry left", ["C01"], [(PDU, "        packet_remaining = packet_remaining[2:]\n        while len(packet_remaining):\n            topic, packet_remaining = decodeString(packet_remaining)\n            qos =", "        packet_remaining = packet_remaining[2:]\n        while len(packet_remaining) >= 4:\n            topic, packet_remaining = decodeString(packet_remaining)\n            qos =")], {"C01": ["L3"]})
 N("0x80 written as 128 in decodeLength", ["C01", "C02"], [(PDU, "        multiplier *= 0x80\n        if (i & 0x80) != 0x80:", "        multiplier *= 128\n        if (i & 128) != 128:")])
 N("encode16Int via divmod", ["C01", "C02"], [(PDU, "    encoded    = bytearray(2)\n    encoded[0] = value >> 8\n    encoded[1] = value & 0xFF\n    return encoded\n\ndef decode16Int", "    encoded    = bytearray(2)\n    hi, lo = divmod(value, 256)\n    encoded[0] = hi\n    encoded[1] = lo\n    return encoded\n\ndef decode16Int")])
 N("PUBLISH.encode topic hoisted out of the if", ["C01", "C02"],
